@@ -80,6 +80,15 @@ func geConstr(r *Rng, n int, clausesOnly bool) ref.Lin {
 			lo += c.Coefs[i]
 		}
 	}
+	if k >= 2 && r.Chance(1, 4) { // one null coefficient (the term means nothing, its variable is still the user's)
+		z := r.Intn(k - 1) // never the last term: what follows a null coefficient is what GtEq has to get right
+		if c.Coefs[z] > 0 {
+			hi -= c.Coefs[z]
+		} else {
+			lo -= c.Coefs[z]
+		}
+		c.Coefs[z] = 0
+	}
 	c.Rhs = r.Range(lo+1, max(hi, lo+1))
 	if r.Chance(1, 12) { // slack: satisfied by every assignment
 		c.Rhs = lo - r.Intn(2)
